@@ -502,6 +502,8 @@ def check(ctx):
     # the payload type of an event is the annotation of the variable that is emitted (shared with C12-D7)
     from c12 import check_annotated_bindings
     check_annotated_bindings(P, r6)
+    from c12 import check_namer_tuple_syntax
+    check_namer_tuple_syntax(S, ev, r6)
     r6.require_floor(10, "translation-path facts")
     rules.append(r6)
 
